@@ -16,6 +16,7 @@ thread_local! {
     static DRIFT: Cell<bool> = const { Cell::new(false) };
     static LAST: Cell<(u64, u32)> = const { Cell::new((u64::MAX, 0)) };
     static READS: Cell<u32> = const { Cell::new(0) };
+    static SHARED: Cell<bool> = const { Cell::new(false) };
     static SKEW: Cell<std::time::Duration> = const { Cell::new(std::time::Duration::ZERO) };
 }
 
@@ -46,6 +47,23 @@ pub fn burn(d: std::time::Duration) {
 
 pub fn skew() -> std::time::Duration {
     SKEW.with(|s| s.get())
+}
+
+/// A clock shared by several OS threads (engine B runs service calls on real threads, outside
+/// any runtime): threads that call `shared_enable` read `BASE + SHARED_NANOS`, which the
+/// harness sets. Lets a thread-level scenario age a TTL deterministically.
+static SHARED_NANOS: std::sync::atomic::AtomicU64 = std::sync::atomic::AtomicU64::new(0);
+
+pub fn shared_enable() {
+    SHARED.with(|s| s.set(true));
+}
+
+pub fn shared_disable() {
+    SHARED.with(|s| s.set(false));
+}
+
+pub fn shared_set_ms(ms: u64) {
+    SHARED_NANOS.store(ms * 1_000_000, std::sync::atomic::Ordering::SeqCst);
 }
 
 /// Drifting mode: within one virtual instant every further read of the clock returns one
@@ -81,6 +99,12 @@ pub fn seam_calls() -> u64 {
 /// # Safety
 /// `tp` must be a valid pointer to a `timespec`.
 pub unsafe fn clock_gettime_impl(clk: libc::clockid_t, tp: *mut libc::timespec) -> libc::c_int {
+    if clk == libc::CLOCK_MONOTONIC && SHARED.try_with(|s| s.get()).unwrap_or(false) {
+        let n = SHARED_NANOS.load(std::sync::atomic::Ordering::SeqCst);
+        (*tp).tv_sec = BASE_SECS + (n / 1_000_000_000) as i64;
+        (*tp).tv_nsec = (n % 1_000_000_000) as i64;
+        return 0;
+    }
     let virt = clk == libc::CLOCK_MONOTONIC
         && ENABLED.try_with(|e| e.get()).unwrap_or(false)
         && !BUSY.try_with(|b| b.get()).unwrap_or(true);
